@@ -43,7 +43,7 @@ func runC34(c *C) {
 	c.R.Exhaustive = true
 	c.R.Notes = append(c.R.Notes, fmt.Sprintf("stream A enumerated all %d linked files exhaustively; stream B is random", len(fds)))
 	// B
-	n := c.N(1500, 40000)
+	n := c.N(900, 30000)
 	for i := 0; i < n && !c.Failed(); i++ {
 		randomC34(c, i)
 	}
